@@ -239,7 +239,7 @@ type OptionDefault struct {
 
 type Argument struct {
 	Name string
-	Type Type
+	Type Type `jsonschema:"required"`
 }
 
 func (arg *Argument) DeepCopy() Argument {
